@@ -9,4 +9,19 @@ CHECKS = {
          'candidates inert at every snapshot, and that no exception escapes. Sampling, not enumeration: holds on what was run.',
     note='Trusts the generator to produce valid profiles (parser-rejected ones are counted, not judged); budget overruns '
          'are re-run alone with 20x budget before being reported; meek/warren+rational overruns are not explored by the property\'s own carve-out.'),
+ 'C02': dict(level='exploration', ref='DESIGN.md 3/C02',
+    technique='runtime monitoring: conservation invariant evaluated on raw (scaled-integer / Fraction) values at every recorded action via an outside hook on ElectionRecord.action',
+    text='At every recorded action of every generated count the monitor sums the live raw tallies plus non-transferable or residual '
+         'votes and compares with the ballot total: never above, below by at most 2 ulp x ballots x surplus transfers so far '
+         '(Gregory family), exactly equal after any distribution (Meek family) and under rational arithmetic; QPQ ballot '
+         'fractions must sum to the number elected by quotient at quiescent snapshots; no negative tally/NT/residual. '
+         'Hundreds of thousands of snapshots per quick run; holds on what was run.',
+    note='Known finding C02/meekprf-stale-snapshot-after-exclusion (classifier: shortfall equals the tally held by the candidates excluded since the last distribution). '
+         'Surplus transfers counted from state diffs. Equal-rank ballots only under meek/warren.'),
+ 'C09': dict(level='exploration', ref='DESIGN.md 3/C09',
+    technique='runtime monitoring: transition-relation checker over consecutive recorded snapshots (status, pending flag, seat bounds, round numbers)',
+    text='Every pair of consecutive snapshots of every generated count is checked against the allowed transitions '
+         '(hopeful->elected, hopeful->defeated, QPQ restart only), pending-flag discipline, withdrawn immutability, '
+         'elected <= seats, elected + continuing electable >= fillable seats, monotone rounds. ~600k transitions per quick run.',
+    note='QPQ restart applied virtually at each round action following a defeat because re-election within the restart round is invisible in snapshots.'),
 }
